@@ -40,11 +40,11 @@ ASSUMPTIONS = [
 
 def run(ctx):
     lib = ctx.lib()
-    check_parse_side(ctx, lib)
-    check_runtime_side(ctx, lib)
-    check_offset_typestate(ctx, lib)
-    check_offset_provenance(ctx, lib)
-    check_units(ctx, lib)
+    ctx.attempt("check_parse_side", check_parse_side, ctx, lib)
+    ctx.attempt("check_runtime_side", check_runtime_side, ctx, lib)
+    ctx.attempt("check_offset_typestate", check_offset_typestate, ctx, lib)
+    ctx.attempt("check_offset_provenance", check_offset_provenance, ctx, lib)
+    ctx.attempt("check_units", check_units, ctx, lib)
 
 
 # =============================================================================================
@@ -477,6 +477,33 @@ def check_offset_provenance(ctx, lib):
                     (x[0] == "field" and x[2] == "0" and x[1][0] == "call" and x[1][1] == P + "advance_with_pos") for x in v)
                 ctx.check(ok, rule, f"ast-offset:{b.deff.split('::')[-1]}:{s['rv']['variant']}#{n}", f"{s['rv']['variant']}.offset is a token position ({fmt_terms(v)[:60]})", s["span"]["s"])
     ctx.floor(rule, n, 20, "Ast nodes built by the parser")
+    # a slice error must point *into the slice*: Slice.offset is read before anything after the brackets is parsed
+    pi = lib.fn(P + "parse_index")
+    if pi is None:
+        ctx.missing(rule, "slice-offset", P + "parse_index")
+    else:
+        po = Origins(pi, lib)
+        sl = [(bb, s) for bb, i, s in pi.stmts() if s["k"] == "assign" and s["rv"]["k"] == "agg" and s["rv"].get("adt") == AST and s["rv"]["variant"] == "Slice"]
+        pr = [(bb, t) for bb, t in pi.calls() if t["callee"] == P + "projection_rhs"]
+        ok = len(sl) == 1 and len(pr) == 1
+        if ok:
+            op = sl[0][1]["rv"]["ops"][sl[0][1]["rv"]["fnames"].index("offset")]
+            # the block where Parser.offset is read for that field
+            loc = op.get("l")
+            read_blk = None
+            for _ in range(4):
+                ws = pi.assigns_to(loc)
+                if len(ws) == 1 and ws[0][1] != "term" and ws[0][2]["k"] == "use":
+                    src = ws[0][2]["op"]
+                    if src.get("k") in ("copy", "move") and src["p"]:
+                        read_blk = ws[0][0]
+                        break
+                    loc = src.get("l")
+                else:
+                    break
+            after = reach_avoiding(pi, pr[0][1]["t"]) if pr[0][1]["t"] is not None else set()
+            ok = read_blk is not None and read_blk not in after and po.of_operand(op) == {("field", ("param", 1), "offset")}
+        ctx.check(ok, rule, "slice-offset-inside-slice", "Slice.offset is the parser position taken before the projection's right-hand side is parsed (it points into the slice brackets)", pi.span)
     er = lib.fn(P + "err")
     if er is not None:
         o = Origins(er, lib)
